@@ -116,7 +116,7 @@ func init() {
 		Rule: "real janitor (DeleteExpiredJobInterval=1ms, DeleteExpiredAfter=1h) paused between cycles at its EvictionNeeded call-out; seeded rounds write mixes of never-expiring, fresh (+1h..+3h), " +
 			"recently expired (-1s..-30min) and long-expired (-2h..-10h) entries, then let 1..3 cleanup cycles run and compare Len/Walk/Read with the model (survivors = all but long-expired); " +
 			"TimeToLive finite and Unlimited (incl. first per-call TTL arriving late), all three backends; distinct_nontrivial = distinct (backend, ttl mode, class-mix pattern per round) cases containing a long-expired and a surviving entry",
-		Required:    []string{"cycles.observed", "entries.long_expired.deleted", "entries.never.survived", "entries.recent.survived", "entries.fresh.survived", "unlimited.late_ttl.cases", "hostile_callout.writes", "kind.ShardedMap", "kind.SyncMap", "kind.ShardedMapOf", "stress.rounds", "aging.must_be_deleted.checked", "aging.must_survive.checked", "progress.cleaned", "bulk.cycles", "parked.cases", "renewed.entries_checked", "stress.runs_rewriting_equal_values", "restore_only.cases"},
+		Required:    []string{"cycles.observed", "entries.long_expired.deleted", "entries.never.survived", "entries.recent.survived", "entries.fresh.survived", "unlimited.late_ttl.cases", "hostile_callout.writes", "kind.ShardedMap", "kind.SyncMap", "kind.ShardedMapOf", "stress.rounds", "aging.must_be_deleted.checked", "aging.must_survive.checked", "progress.cleaned", "bulk.cycles", "parked.cases", "renewed.entries_checked", "stress.runs_rewriting_equal_values", "restore_only.cases", "restore_only.mixed_with_never_expiring"},
 		Assumptions: []string{"wall clock not stepped; class margins are >=1s against a 1h DeleteExpiredAfter boundary", "no eviction limit configured; EvictionNeeded always answers false"},
 		Timeout:     func(string) time.Duration { return 45 * time.Minute },
 	})
@@ -1375,6 +1375,15 @@ func c11RestoreOnly(b *Batch, idx int) {
 				src := newBackend(kind, cache.Config{TimeToLive: cache.UnlimitedTTL})
 				n := 2 + rng.Intn(30)
 				withExpiry := rng.Intn(2) == 0 // the entries arrive with their own (past) expiry instead of being expired here
+				// mixed: the dump also holds never-expiring entries (often more of them, so that the stream likely ends with
+				// one): the expired ones must still be cleaned and the never-expiring ones must survive
+				mixed, nNever := withExpiry && rng.Intn(2) == 0, 0
+				if mixed {
+					nNever = 1 + rng.Intn(3*n)
+					for i := 0; i < nNever; i++ {
+						src.Write(bg, []byte(fmt.Sprintf("n-%d", i)), "v")
+					}
+				}
 				for i := 0; i < n; i++ {
 					if withExpiry {
 						src.Write(cache.WithTTL(bg, -time.Millisecond, false), []byte(fmt.Sprintf("r-%d", i)), "v")
@@ -1386,7 +1395,7 @@ func c11RestoreOnly(b *Batch, idx int) {
 				if _, err := src.Dump(&buf); err != nil {
 					return
 				}
-				if withExpiry && rng.Intn(2) == 0 {
+				if withExpiry && !mixed && rng.Intn(2) == 0 {
 					// the stream breaks off in the middle: what was restored before the error is in the cache (with its expiry)
 					cut := buf.Len() * (40 + rng.Intn(50)) / 100
 					got, err := be.Restore(bytes.NewReader(buf.Bytes()[:cut]))
@@ -1413,9 +1422,23 @@ func c11RestoreOnly(b *Batch, idx int) {
 				b.R.Eval()
 				b.R.Count("restore_only.cases", 1)
 				b.R.Nontrivial(fmt.Sprintf("restore-only/%s/unl=%v", kind, unlimited))
-				left := 0
+				left, leftNever := 0, 0
 				var oldest time.Time
-				be.Walk(func(_ []byte, _ interface{}, exp timeT) error { left++; oldest = exp; return nil })
+				be.Walk(func(k []byte, _ interface{}, exp timeT) error {
+					if k[0] == 'n' {
+						leftNever++
+					} else {
+						left++
+						oldest = exp
+					}
+					return nil
+				})
+				if mixed {
+					b.R.Count("restore_only.mixed_with_never_expiring", 1)
+				}
+				if leftNever != nNever {
+					b.R.Violate(b, idx, "C11:"+kind+":restored-never-expiring-deleted", fmt.Sprintf("%d of %d never-expiring entries that arrived by Restore are gone after a cleanup cycle (unlimited=%v)", nNever-leftNever, nNever, unlimited), nil)
+				}
 				if left != 0 {
 					b.R.Violate(b, idx, "C11:"+kind+":restored-then-expired-survived", fmt.Sprintf("%d of %d entries that arrived by Restore and expired (by ExpireAll here, or before they were dumped) %v before the cycle (DeleteExpiredAfter %v) survived it (unlimited=%v, no Write ever happened on this cache)", left, n, tr.Sub(oldest).Round(time.Millisecond), D, unlimited), nil)
 				}
